@@ -10,7 +10,9 @@ import (
 	"fmt"
 	"math/big"
 	"os"
+	"runtime"
 	"strings"
+	"sync"
 
 	"com.tuntun.rangers/node/src/common"
 	"com.tuntun.rangers/node/src/common/ed25519"
@@ -357,6 +359,184 @@ func (s *searcher) qnTransport(nSynthetic, nHonest int) {
 	s.counts["honest-proofs-with-leading-zero-byte(qn transport)"] = found
 }
 
+// concurrent: N goroutines prove and verify at the same time, each with its own keys and
+// messages; every proof must equal the one generated sequentially beforehand and every honest
+// proof must verify. EVIDENCE, not proof: a schedule-dependent failure may need several runs.
+func (s *searcher) concurrent(workers, perWorker int) {
+	if runtime.GOMAXPROCS(0) < 4 {
+		runtime.GOMAXPROCS(4)
+	}
+	type job struct{ pk, sk, m, want []byte }
+	jobs := make([][]job, workers)
+	for w := 0; w < workers; w++ {
+		pk, sk := s.key()
+		for j := 0; j < perWorker; j++ {
+			if j%16 == 15 {
+				pk, sk = s.key()
+			}
+			m := s.r.Bytes(s.r.Pick(0, 8, 32, 32, 64, 100))
+			want, err := ed25519.ECVRFProve(sk, m)
+			if err != nil {
+				continue
+			}
+			jobs[w] = append(jobs[w], job{pk, sk, m, want})
+		}
+	}
+	type bad struct {
+		kind   string
+		w, j   int
+		got    []byte
+		detail string
+	}
+	var mu sync.Mutex
+	var bads []bad
+	var wg sync.WaitGroup
+	start := make(chan struct{})
+	for w := 0; w < workers; w++ {
+		wg.Add(1)
+		go func(w int) {
+			defer wg.Done()
+			<-start
+			for j, jb := range jobs[w] {
+				func() {
+					defer func() {
+						if r := recover(); r != nil {
+							mu.Lock()
+							bads = append(bads, bad{"concurrent-panic", w, j, nil, fmt.Sprint(r)})
+							mu.Unlock()
+						}
+					}()
+					got, err := ed25519.ECVRFProve(jb.sk, jb.m)
+					if err != nil || !bytes.Equal(got, jb.want) {
+						mu.Lock()
+						bads = append(bads, bad{"concurrent-prove-differs", w, j, got, fmt.Sprint(err)})
+						mu.Unlock()
+					}
+					ok, verr := ed25519.ECVRFVerify(jb.pk, jb.want, jb.m)
+					if !ok {
+						mu.Lock()
+						bads = append(bads, bad{"concurrent-honest-rejected", w, j, nil, fmt.Sprint(verr)})
+						mu.Unlock()
+					}
+				}()
+			}
+		}(w)
+	}
+	close(start)
+	wg.Wait()
+	n := 0
+	for w := range jobs {
+		n += 2 * len(jobs[w])
+	}
+	s.evals += n
+	s.counts["concurrent-goroutines"] = workers
+	s.counts["concurrent-prove+verify-calls"] = n
+	s.counts["concurrent-failures"] = len(bads)
+	for _, b := range bads {
+		jb := jobs[b.w][b.j]
+		s.perKey[b.kind]++
+		if s.perKey[b.kind] > 2 {
+			continue
+		}
+		desc := map[string]string{
+			"concurrent-prove-differs":   "ECVRFProve called while other goroutines prove/verify returned a proof different from the one it returns sequentially for the same key and message",
+			"concurrent-honest-rejected": "ECVRFVerify rejected an honest proof while other goroutines prove/verify",
+			"concurrent-panic":           "panic inside ECVRFProve/ECVRFVerify under concurrency: " + b.detail,
+		}[b.kind]
+		s.viol = append(s.viol, violation{Key: b.kind, Desc: fmt.Sprintf("%s (%d goroutines, %d calls each, %d failures in this run; schedule-dependent)", desc, workers, perWorker, len(bads)),
+			Replay: map[string]interface{}{
+				"mode": "concurrent", "goroutines": workers, "calls_per_goroutine": perWorker, "failures_in_run": len(bads),
+				"ops":      []string{"prove " + hx.Hex(jb.sk) + " " + hx.Hex(jb.m), vline(jb.pk, jb.want, jb.m)},
+				"expected": "ok " + hx.Hex(jb.want) + " / true (what the same calls answer sequentially)",
+				"observed": hx.Hex(b.got) + " " + b.detail,
+				"rerun":    fmt.Sprintf("harness/bin/c16 mode=search only=concurrent workers=%d (VERIF_SEED as recorded); evidence, not proof: needs an interleaving", workers),
+			}})
+	}
+}
+
+// history: the same calls in different orders within one process must give identical answers
+// ("qn / verify / stake ratio are functions of their inputs", as a history oracle).
+func (s *searcher) history(n int) {
+	thr := threshold()
+	defer setThreshold(thr)
+	var lines []string
+	mk := func(val *big.Int) []byte {
+		p := make([]byte, 80)
+		vb := val.Bytes()
+		copy(p[32-len(vb):32], vb)
+		return p
+	}
+	for _, t := range []uint64{1, 2, 5, 6, 10, 100, 1 << 40} {
+		for _, v := range []*big.Int{big.NewInt(0), big.NewInt(1), new(big.Int).Rsh(max256, 3), new(big.Int).Rsh(max256, 1), max256} {
+			lines = append(lines, fmt.Sprintf("qn %d %s 10 0 %d", thr, hx.Hex(mk(v)), t))
+			lines = append(lines, fmt.Sprintf("qn %d %s %d 2 %d", thr, hx.Hex(mk(v)), thr+1, t))
+		}
+		lines = append(lines, fmt.Sprintf("sr 1 %d", t), fmt.Sprintf("pp %d", t))
+	}
+	for _, l := range []string{"qnr 1 2 3 1", "qnr 1 3 1 2", "qnr 1 1 7 2", "qnr 9 10 1 1", "qnr 1 10 3 10", "qnr 1 2 5 2", "qnr 2 3 9 4"} {
+		lines = append(lines, l)
+	}
+	for i := 0; i < n; i++ {
+		pk, sk := s.key()
+		m := s.r.Bytes(32)
+		pi, err := ed25519.ECVRFProve(sk, m)
+		if err != nil {
+			continue
+		}
+		lines = append(lines, vline(pk, pi, m), vline(pk, flip(pi, s.r.Intn(640)), m), "prove "+hx.Hex(sk)+" "+hx.Hex(m),
+			fmt.Sprintf("qn %d %s 10 0 %d", thr, hx.Hex(pi), 1+s.r.Intn(12)))
+	}
+	run := func(order []int) []string {
+		res := make([]string, len(lines))
+		for _, i := range order {
+			l := lines[i]
+			res[i] = hx.Guard(func() string { return exec(l) })
+			s.evals++
+		}
+		return res
+	}
+	id := make([]int, len(lines))
+	for i := range id {
+		id[i] = i
+	}
+	first := run(id)
+	orders := [][]int{}
+	rev := make([]int, len(id))
+	for i := range id {
+		rev[i] = id[len(id)-1-i]
+	}
+	orders = append(orders, rev, id)
+	for k := 0; k < 3; k++ {
+		sh := append([]int{}, id...)
+		for i := len(sh) - 1; i > 0; i-- {
+			j := s.r.Intn(i + 1)
+			sh[i], sh[j] = sh[j], sh[i]
+		}
+		orders = append(orders, sh)
+	}
+	for _, ord := range orders {
+		got := run(ord)
+		for pos, i := range ord {
+			if got[i] != first[i] {
+				// the calls that preceded it in this order (bounded) + the call itself
+				from := pos - 40
+				if from < 0 {
+					from = 0
+				}
+				var ops []string
+				for _, j := range ord[from : pos+1] {
+					ops = append(ops, lines[j])
+				}
+				s.report("history-dependent-answer",
+					fmt.Sprintf("the call %q answered %q the first time and %q later in the same process (after other calls): not a function of its inputs", lines[i], first[i], got[i]),
+					first[i], ops...)
+				break
+			}
+		}
+	}
+	s.counts["history-calls"] = len(lines) * (1 + len(orders))
+}
+
 // qnRange: whenever validateProve accepts, 1 <= qn <= MaxQN; and it is a function of its inputs.
 func (s *searcher) qnRange(n int) {
 	maxq := uint64(model.Param.MaxQN)
@@ -454,19 +634,35 @@ func (s *searcher) qnRange(n int) {
 	check(thrs[1], s.r.Bytes(80), thrs[1]+1, 7, 3)
 }
 
+func scaleW(a map[string]string) int {
+	if a["tier"] == "thorough" {
+		return 3
+	}
+	return 1
+}
+
 func search(a map[string]string) {
 	s := &searcher{r: hx.NewRng(hx.SeedFromEnv() ^ 0x5eac4), seen: map[string]bool{}, perKey: map[string]int{}, counts: map[string]int{}}
 	scale := 1
 	if a["tier"] == "thorough" {
 		scale = 10
 	}
-	zeros := s.honest(12*scale, 60)
-	s.counts["honest-proofs-with-leading-zero-byte"] = zeros
-	s.syntheticTransport(200 * scale)
-	s.bitflips(6 * scale)
-	s.adversarial(4 * scale)
-	s.qnRange(400 * scale)
-	s.qnTransport(30*scale, 6*scale)
+	workers := hx.ArgInt(a, "workers", 8*scaleW(a))
+	if a["only"] == "concurrent" {
+		s.concurrent(workers, 600*scale)
+	} else {
+		// history first: a poisoned package-level value must not be able to hide behind later phases
+		s.history(12 * scale)
+		zeros := s.honest(12*scale, 60)
+		s.counts["honest-proofs-with-leading-zero-byte"] = zeros
+		s.syntheticTransport(200 * scale)
+		s.bitflips(6 * scale)
+		s.adversarial(4 * scale)
+		s.qnRange(400 * scale)
+		s.qnTransport(30*scale, 6*scale)
+		s.history(6 * scale)
+		s.concurrent(workers, 600*scale)
+	}
 	for k, v := range s.perKey {
 		s.counts["violations:"+k] = v
 	}
